@@ -92,6 +92,22 @@ def helper_cm(it, job):
     d = diff(before, osm.snapshot())
     if d:
         return ("X1-leaving-restores-what-entering-changed", desc, d)
+    # the same object used a second time, from a different starting state: leaving restores what THIS entering changed
+    osm.flags[0] ^= 0x1000
+    osm.tty[0][3] ^= 0x40
+    osm.tty[0][6][6] = b"\x05"
+    osm.tty[0][6][5] = b"\x64"
+    before = osm.snapshot()
+    desc += "; then the state changes (another flag, another local mode bit, VMIN/VTIME) and the same object is entered and left again"
+    r = _must(it.callm(obj, "__enter__"), cls + ".__enter__")
+    if r[0] != "ok":
+        return ("X1-leaving-restores-what-entering-changed", desc, "the second __enter__ raised %s" % (r[1],))
+    r = _must(_exit(it, obj, exc), cls + ".__exit__")
+    if r[0] != "ok":
+        return ("X1-leaving-restores-what-entering-changed", desc, "the second __exit__ raised %s" % (r[1],))
+    d = diff(before, osm.snapshot())
+    if d:
+        return ("X1-leaving-restores-what-entering-changed", desc, d)
     return None
 
 
